@@ -10,9 +10,11 @@
 -/
 import TypedpyModel.Drive.Wire
 import TypedpyModel.Sem.Stub
+import TypedpyModel.Sem.StubText
+import TypedpyModel.Sem.StubDefine
 namespace Typedpy.Drive.Stub
 open Lean (Json)
-open Typedpy.Wire Typedpy.Stub
+open Typedpy.Wire Typedpy.Stub Typedpy.StubText Typedpy.StubD
 
 def fieldOfJson (j : Json) : Except String FieldInfo := do
   let n ← (← j.getObjVal? "n").getStr?
@@ -44,7 +46,7 @@ def buildClasses (ds : List (Decl × List Nat)) : Except String (Array ClassInfo
 def paramsToJson (ps : List Param) : Json :=
   Json.arr (ps.map fun p => Json.arr #[.str p.name, .bool p.hasDefault]).toArray
 
-def sigToJson (s : Sig) : Json := Json.mkObj [("params", paramsToJson s.params), ("kw", .bool s.kw)]
+def sigToJson (s : Stub.Sig) : Json := Json.mkObj [("params", paramsToJson s.params), ("kw", .bool s.kw)]
 
 def strsToJson (xs : List String) : Json := Json.arr (xs.map Json.str).toArray
 
@@ -69,7 +71,195 @@ def report (dflt apd : Bool) (c : ClassInfo) : Json :=
     ("admitsExtra", .bool (runtimeAdmitsExtra dflt c)),
     ("inheritedAddlOn", .bool (inheritedAddlOn dflt c)),
     ("inheritedAddlOff", .bool (inheritedAddlOff dflt c)),
-    ("mandatoryFirst", .bool (mandatoryFirst (stubInit dflt apd c).params))]
+    ("mandatoryFirst", .bool (mandatoryFirst (stubInit dflt apd c).params)),
+    ("addlDeclared", .bool (addlLookup (mro c)).isSome)]
+
+/-! ### the same classes as class objects of Sem/Define.lean (any hierarchy shape: C3 linearisation) -/
+
+def clsKey (i : Nat) : String := s!"c{i}"
+
+def toSrc (i : Nat) (d : Decl) (bases : List Nat) : ClassSrc :=
+  { name := clsKey i
+    bases := if bases.isEmpty then ["Structure"] else bases.map clsKey
+    entries := d.fields.map fun f =>
+      (f.name, SrcEntry.obj (if f.isConst then Member.const (.int 0)
+                             else Member.field .anything (if f.hasDefault then some (.lit (.int 1)) else none)))
+    required := d.requiredDecl, optional := d.optionalDecl, addl := d.addl }
+
+/-- worlds before each class statement, and the sources -/
+def buildWorlds (ds : List (Decl × List Nat)) : Array (World × ClassSrc) :=
+  let step := fun (acc : Array (World × ClassSrc) × World × Nat) (x : Decl × List Nat) =>
+    let src := toSrc acc.2.2 x.1 x.2
+    (acc.1.push (acc.2.1, src), acc.2.1.add (build acc.2.1 src), acc.2.2 + 1)
+  (ds.foldl step (#[], World.init, 0)).1
+
+def helperD (h : Helper) (s : Stub.Sig) : Stub.Sig :=
+  ⟨helperPrefix h ++ s.params.map (fun p => ⟨p.name, true⟩), s.kw⟩
+
+def reportD (dflt apd : Bool) (label : String) (w : World) (src : ClassSrc) : Json :=
+  let c := build w src
+  let s := stubInitD apd w src
+  Json.mkObj [
+    ("name", .str label),
+    ("init", sigToJson s),
+    ("shallowClone", sigToJson (helperD .shallowClone s)),
+    ("fromOtherClass", sigToJson (helperD .fromOtherClass s)),
+    ("fromTrustedData", sigToJson (helperD .fromTrustedData s)),
+    ("runtime", sigToJson ⟨sigParamsD (Typedpy.sigOf w src), sigKwD dflt src⟩),
+    ("required", strsToJson c.required),
+    ("consts", strsToJson (c.constants.map (·.1))),
+    ("fieldOrder", strsToJson (c.allFields.map (·.1))),
+    ("admitsExtra", .bool (admitsD dflt w src)),
+    ("inheritedAddlOn", .bool (inheritedOnD dflt w src)),
+    ("inheritedAddlOff", .bool (inheritedOffD dflt w src)),
+    ("mandatoryFirst", .bool (mandatoryFirst s.params)),
+    ("namesCovered", .bool (namesCovered w src)),
+    ("addlDeclared", .bool (addlAttr w src).isSome),
+    ("mro", strsToJson c.mro),
+    ("mroOk", .bool (mroOf w src).isSome),
+    ("sigDup", .bool ((Typedpy.sigOf w src).req.any (fun n => (Typedpy.sigOf w src).opt.contains n)))]
+
+/-! ### the text tie: annotation ASTs in, the real header texts in; model tokens vs lexed real text, parser verdicts out -/
+
+partial def annOfJson (j : Json) : Except String Ann :=
+  match j with
+  | .str "..." => pure .ellipsis
+  | _ => do
+    if let some x := optField j "n" then
+      return .name (← (← x.getArr?).toList.mapM (·.getStr?))
+    if let some x := optField j "s" then
+      let a ← x.getArr?
+      match a.toList with
+      | [h, args] =>
+        return .sub (← (← h.getArr?).toList.mapM (·.getStr?)) (← (← args.getArr?).toList.mapM annOfJson)
+      | _ => throw "ann: s expects [head, args]"
+    if let some x := optField j "l" then
+      return .lst (← (← x.getArr?).toList.mapM annOfJson)
+    if (optField j "lit").isSome then return .lit
+    throw s!"ann: unknown {j.compress}"
+
+def kindStr : PKind → String
+  | .po => "po" | .pk => "pk" | .va => "va" | .ko => "ko" | .vk => "vk"
+
+def defInfoToJson (d : DefInfo) : Json :=
+  Json.mkObj [("name", .str d.name),
+    ("params", Json.arr (d.params.map fun p => Json.arr #[.str p.name, .str (kindStr p.kind), .bool p.hasDefault]).toArray),
+    ("dupFree", .bool (dupFree (d.params.map (·.name))))]
+
+/-- lex + parse one `def` header text -/
+def parseDefText (s : String) : Json :=
+  match lexPy s with
+  | none => Json.mkObj [("lex", .bool false)]
+  | some ts => match parseDef ts with
+    | none => Json.mkObj [("lex", .bool true), ("parse", .null)]
+    | some d => Json.mkObj [("lex", .bool true), ("parse", defInfoToJson d)]
+
+def parseClassText (s : String) : Json :=
+  match lexPy s with
+  | none => Json.mkObj [("lex", .bool false)]
+  | some ts => match parseClass ts with
+    | none => Json.mkObj [("lex", .bool true), ("parse", .null)]
+    | some (c, n) => Json.mkObj [("lex", .bool true), ("parse", Json.arr #[.str c, .num (Lean.JsonNumber.fromNat n)])]
+
+/-- model tokens against the lexed real text -/
+def tieToks (model : List Tok) (real : Option String) : Json :=
+  match real with
+  | none => .null
+  | some s =>
+    Json.mkObj [("eq", .bool (lexPy s == some model)), ("model", .str (toksText model)),
+      ("accepted", .bool ((parseDef model).isSome))]
+
+def optStr (j : Json) (k : String) : Except String (Option String) :=
+  match optField j k with
+  | none => pure none
+  | some x => do pure (some (← x.getStr?))
+
+def textClass (sigFor : Nat → Option (Stub.Sig × String)) (j : Json) : Except String Json := do
+  let i ← (← j.getObjVal? "i").getNat?
+  let (sig, cname) ← match sigFor i with
+    | some x => pure x
+    | none => throw s!"text: class index {i} out of range"
+  let annsL ← (← (← j.getObjVal? "anns").getArr?).toList.mapM fun kv => do
+    let a ← kv.getArr?
+    match a.toList with
+    | [k, v] => pure ((← k.getStr?), (← annOfJson v))
+    | _ => throw "text: anns entry must be [name, ann]"
+  let anns : String → Ann := fun n => ((annsL.find? (fun kv => kv.1 == n)).map (·.2)).getD anyAnn
+  let bases ← match optField j "bases" with
+    | none => pure []
+    | some x => do (← x.getArr?).toList.mapM fun b => do (← b.getArr?).toList.mapM (·.getStr?)
+  let attrs ← match optField j "attrs" with
+    | none => pure []
+    | some x => do (← x.getArr?).toList.mapM fun kv => do
+        let a ← kv.getArr?
+        match a.toList with
+        | [k, v] => pure ((← k.getStr?), (← v.getStr?))
+        | _ => throw "text: attrs entry must be [name, text]"
+  let attrBad := attrs.filterMap fun (n, t) =>
+    match sig.params.find? (fun p => p.name == n) with
+    | none => some n
+    | some p => if lexPy t == some (attrToks (anns n) p) then none else some n
+  let domain := textDomain anns sig.params
+  pure (Json.mkObj [
+    ("name", .str cname), ("domain", .bool domain),
+    ("init", tieToks (initToks anns sig) (← optStr j "init")),
+    ("shallowClone", tieToks (helperToks anns .shallowClone sig) (← optStr j "shallowClone")),
+    ("fromOtherClass", tieToks (helperToks anns .fromOtherClass sig) (← optStr j "fromOtherClass")),
+    ("fromTrustedData", tieToks (helperToks anns .fromTrustedData sig) (← optStr j "fromTrustedData")),
+    ("header", match (← optStr j "header") with
+      | none => Json.null
+      | some s => Json.mkObj [("eq", .bool (lexPy s == some (classToks cname bases))),
+                              ("model", .str (toksText (classToks cname bases)))]),
+    ("attrBad", strsToJson attrBad)])
+
+def kindOfStr (s : String) : Except String PKind :=
+  match s with
+  | "po" => pure .po | "pk" => pure .pk | "va" => pure .va | "ko" => pure .ko | "vk" => pure .vk
+  | _ => throw s!"unknown parameter kind {s}"
+
+def optAnn (j : Json) : Except String (Option Ann) :=
+  match j with
+  | .null => pure none
+  | _ => do pure (some (← annOfJson j))
+
+/-- one method / function as `inspect.signature` reports it (+ the annotation / default expressions read off the
+    stub): the model's `methodToks` against the lexed real header -/
+def textMethod (j : Json) : Except String Json := do
+  let f ← (← j.getObjVal? "name").getStr?
+  let text ← (← j.getObjVal? "text").getStr?
+  let ps ← (← (← j.getObjVal? "ps").getArr?).toList.mapM fun p => do
+    let a ← p.getArr?
+    match a.toList with
+    | [n, k, ann, d] => do
+      let n' ← n.getStr?
+      let k' ← kindOfStr (← k.getStr?)
+      let a' ← optAnn ann
+      let d' ← optAnn d
+      pure ({ name := n', kind := k', ann := a', dflt := d' } : RParam)
+    | _ => throw "text: method parameter must be [name, kind, ann, default]"
+  let ret ← match optField j "ret" with
+    | none => pure none
+    | some r => optAnn r
+  let model := methodToks f ps ret
+  pure (Json.mkObj [("eq", .bool (lexPy text == some model)), ("model", .str (toksText model)),
+    ("valid", .bool (validGo .po0 false ps)),
+    ("roundtrip", .bool (parseDef model == some ⟨f, ps.map RParam.info⟩))])
+
+def textReport (sigFor : Nat → Option (Stub.Sig × String)) (j : Json) : Except String Json := do
+  let cls ← match optField j "classes" with
+    | none => pure []
+    | some x => do (← x.getArr?).toList.mapM (textClass sigFor)
+  let strs (k : String) : Except String (List String) := match optField j k with
+    | none => pure []
+    | some x => do (← x.getArr?).toList.mapM (·.getStr?)
+  pure (Json.mkObj [
+    ("classes", Json.arr cls.toArray),
+    ("defs", Json.arr ((← strs "defs").map parseDefText).toArray),
+    ("muts", Json.arr ((← strs "muts").map parseDefText).toArray),
+    ("cls", Json.arr ((← strs "cls").map parseClassText).toArray),
+    ("meths", Json.arr (← match optField j "meths" with
+      | none => pure []
+      | some x => do (← x.getArr?).toList.mapM textMethod).toArray)])
 
 def run (j : Json) : Except String Json := do
   let dflt ← optBool j "dflt" true
@@ -90,6 +280,22 @@ def run (j : Json) : Except String Json := do
         match a.toList with
         | [k, v] => pure ((← k.getStr?), (← v.getStr?))
         | _ => throw "imports entry must be [name, module]"
-  pure (Json.mkObj [("classes", Json.arr reps.toArray), ("imports", strsToJson (renderImports imports))])
+  let worlds := buildWorlds ds
+  let nontree ← match optField j "nontree" with
+    | none => pure []
+    | some x => do (← x.getArr?).toList.mapM (·.getNat?)
+  let repsD := targets.filterMap fun i => match worlds[i]?, classes[i]? with
+    | some (w, src), some c => some (reportD dflt apd c.decl.name w src)
+    | _, _ => none
+  let sigFor : Nat → Option (Stub.Sig × String) := fun i =>
+    match classes[i]?, worlds[i]? with
+    | some c, some (w, src) =>
+      some (if nontree.contains i then stubInitD apd w src else stubInit dflt apd c, c.decl.name)
+    | _, _ => none
+  let text ← match optField j "text" with
+    | none => pure Json.null
+    | some t => textReport sigFor t
+  pure (Json.mkObj [("classes", Json.arr reps.toArray), ("classesD", Json.arr repsD.toArray),
+    ("imports", strsToJson (renderImports imports)), ("text", text)])
 
 end Typedpy.Drive.Stub
